@@ -99,43 +99,117 @@ Fixpoint run_task (fuel : nat) (maxr : Z) (lk : bool) (ns : list nop) (xs : list
       end
   end.
 
+Definition is_some {A} (o : option A) : bool := match o with Some _ => true | None => false end.
+
+(* ---------- lineage ops (twin of OPS in py/c04.py): partition-wise functions on the elements *)
+
+Definition op_apply (c : Z) (xs : list Z) : list Z :=
+  match c with
+  | 1 => map (fun x => x + 1) xs
+  | 2 => map (fun x => x * 2) xs
+  | 3 => map Z.opp xs
+  | 4 => filter (fun x => x mod 2 =? 0) xs
+  | 5 => flat_map (fun x => [x; x + 10]) xs
+  | 10 => map (fun x => x + 1) xs
+  | _ => xs            (* 6 mapPartitions(list), 7 glom+flatten, 8 persist, 9 cache, 11 sample(1.0), 12 identity *)
+  end.
+Definition apply_ops (ops : list Z) (xs : list Z) : list Z := fold_left (fun acc c => op_apply c acc) ops xs.
+Definition op_persist (c : Z) : bool := (c =? 8) || (c =? 9).
+(* ops that pull their whole input while the partition is computed (inside _run_task's try) *)
+Definition op_materialises (c : Z) : bool := (c =? 6) || (c =? 7) || (c =? 8) || (c =? 9).
+
 (* ---------- jobs *)
 
-Record part := mkPart { p_data : list Z; p_plan : plan; p_nest : list nop }.
+(* p_cache: what the cache manager holds for this partition of the persisted dataset(s) above the injected
+   stage (recorded as the output of the injected stage from which it was computed);
+   p_calls: how often the injected function was called on this partition by earlier jobs (numbering only) *)
+Record part := mkPart { p_data : list Z; p_plan : plan; p_nest : list nop;
+                        p_cache : option (list Z); p_calls : nat }.
 (* j_eager: the injected task function computes its whole output when the partition is computed
    (True) or is a generator that runs when it is consumed (False); irrelevant to actions that evaluate
    whole partitions, decisive for take/first/isEmpty *)
-Record job := mkJob { j_action : Z; j_eager : bool; j_pre : Z; j_post : Z; j_parts : list part }.
+Record job := mkJob { j_action : Z; j_eager : bool; j_pre : list Z; j_post : list Z; j_parts : list part }.
 
-(* the function library of the harness (py/c04.py FUNCS) *)
-Definition fn (c : Z) (x : Z) : Z :=
-  match c with 1 => x + 1 | 2 => x * 2 | 3 => - x | _ => x end.
+(* classes of job-triggering methods (twin of ACTIONS in py/c04.py):
+   0 whole partitions, tasks run while runJob holds the lock;
+   1 whole partitions through toLocalIterator(): tasks run when the returned generator is consumed;
+   2 lazy: take(n), first(), isEmpty() *)
+Definition act_class (a : Z) : Z :=
+  if (9 <=? a) && (a <=? 16) then 2
+  else if (a =? 32) || ((39 <=? a) && (a <=? 52)) then 1 else 0.
+
+Definition act_kind (a : Z) : Z :=
+  match a with
+  | 0 => 0 | 1 => 1 | 2 => 2 | 3 => 2 | 4 => 2 | 5 => 3 | 6 => 4 | 7 => 4 | 8 => 5 | 17 => 2 | 18 => 2 | 19 => 1
+  | 20 => 2 | 21 => 8 | 22 => 9 | 23 => 15 | 24 => 5 | 25 => 6 | 26 => 1 | 27 => 7 | 28 => 11 | 29 => 12 | 30 => 13
+  | 31 => 14 | 32 => 14 | 33 => 0 | 34 => 0 | 35 => 0 | 36 => 7 | 37 => 17 | 38 => 7 | 39 => 0 | 40 => 8 | 41 => 19
+  | 42 => 16 | 43 => 0 | 44 => 0 | 45 => 10 | 46 => 8 | 47 => 0 | 48 => 19 | 49 => 7 | 50 => 0 | 51 => 18 | 52 => 7
+  | _ => -1
+  end.
 
 Definition zsum (xs : list Z) : Z := fold_left Z.add xs 0.
-Definition zmax (xs : list Z) : val :=
-  match xs with [] => VErr "ValueError" | x :: r => VInt (fold_left Z.max r x) end.
+Fixpoint zinsert (x : Z) (l : list Z) : list Z :=
+  match l with [] => [x] | y :: r => if x <=? y then x :: l else y :: zinsert x r end.
+Definition zsort (l : list Z) : list Z := fold_right zinsert [] l.
+Fixpoint zdedup (l : list Z) : list Z :=      (* adjacent duplicates of a sorted list *)
+  match l with
+  | x :: ((y :: _) as r) => if x =? y then zdedup r else x :: zdedup r
+  | _ => l
+  end.
+Definition zcount (v : Z) (l : list Z) : Z := Z.of_nat (length (filter (Z.eqb v) l)).
+Fixpoint indexed (i : Z) (l : list Z) : list val :=
+  match l with [] => [] | x :: r => VTup [VInt x; VInt i] :: indexed (i + 1) r end.
+Definition by_mod3 (f : list Z -> val) (xs : list Z) : val :=
+  VList (flat_map (fun k => match filter (fun x => x mod 3 =? k) xs with
+                            | [] => []
+                            | g => [VTup [VInt k; f g]]
+                            end) [0; 1; 2]).
 
-(* the result of an action on fault-free partition outputs (py/c04.py do_action) *)
-Definition act_result (a : Z) (pss : list (list Z)) : val :=
+(* the canonical value of a whole-partition method on fault-free partition outputs (twin of KIND) *)
+Definition kind_result (k : Z) (pss : list (list Z)) : val :=
   let xs := concat pss in
-  match a with
+  match k with
   | 0 => vints xs
   | 1 => VInt (Z.of_nat (length xs))
   | 2 => VInt (zsum xs)
-  | 3 => match xs with [] => VErr "ValueError" | _ => VInt (zsum xs) end
-  | 4 => VInt (zsum xs)
-  | 5 => VTup [VInt (zsum xs); VInt (Z.of_nat (length xs))]
-  | 6 => VNone
-  | 7 => VNone
-  | 8 => zmax xs
+  | 3 => VTup [VInt (zsum xs); VInt (Z.of_nat (length xs))]
+  | 4 => VNone
+  | 5 => match xs with [] => VBad | x :: r => VInt (fold_left Z.max r x) end
+  | 6 => match xs with [] => VBad | x :: r => VInt (fold_left Z.min r x) end
+  | 7 => vints (zsort xs)
+  | 8 => vints (zdedup (zsort xs))
+  | 9 => VList (map (fun v => VTup [VInt v; VInt (zcount v xs)]) (zdedup (zsort xs)))
+  | 10 => VInt (Z.of_nat (length (zdedup (zsort xs))))
+  | 11 => vints (firstn 2 (rev (zsort xs)))
+  | 12 => vints (firstn 2 (zsort xs))
+  | 13 => vints (filter (fun x => x mod 3 =? 1) xs)
+  | 14 => by_mod3 (fun g => VInt (zsum g)) xs
+  | 15 => by_mod3 (fun g => VInt (Z.of_nat (length g))) xs
+  | 16 => by_mod3 vints xs
+  | 17 => VList (map vints pss)
+  | 18 => vints [Z.of_nat (length (filter (fun x => x <? 0) xs)); Z.of_nat (length (filter (fun x => 0 <=? x) xs))]
+  | 19 => VList (indexed 0 xs)
   | _ => VBad
   end.
+Definition act_result (a : Z) (pss : list (list Z)) : val := kind_result (act_kind a) pss.
 
 (* input of the injected stage / output of the whole pipeline for one partition, without faults *)
-Definition stage_in (j : job) (p : part) : list Z := map (fn (j_pre j)) (p_data p).
+Definition stage_in (j : job) (p : part) : list Z := apply_ops (j_pre j) (p_data p).
 Definition plain_parts (j : job) : list (list Z) :=
-  map (fun p => map (fn (j_post j)) (stage_in j p)) (j_parts j).
+  map (fun p => apply_ops (j_post j) (stage_in j p)) (j_parts j).
 Definition plain_result (j : job) : val := act_result (j_action j) (plain_parts j).
+
+(* a persisted dataset above the injected stage serves the partition from the cache *)
+Definition persist_above (j : job) : bool := existsb op_persist (j_post j).
+Definition cached (j : job) (p : part) : option (list Z) := if persist_above j then p_cache p else None.
+
+(* the task of one partition: PersistedRDD.compute returns the cached list without computing anything
+   below it; otherwise _run_task *)
+Definition part_task (fuel : nat) (maxr : Z) (lk : bool) (j : job) (p : part) : tres * list arec * bool :=
+  match cached j p with
+  | Some c => (TOk c, [], lk)
+  | None => run_task fuel maxr lk (p_nest p) (stage_in j p) (p_plan p) 0
+  end.
 
 Inductive jres :=
 | JOk (v : val)                        (* the action returns v *)
@@ -155,7 +229,7 @@ Fixpoint tasks_local (fuel : nat) (maxr : Z) (lk : bool) (j : job) (idx : Z) (ps
   match ps with
   | [] => (KOk [], [], lk)
   | p :: rest =>
-      let '(t, log, lk1) := run_task fuel maxr lk (p_nest p) (stage_in j p) (p_plan p) 0 in
+      let '(t, log, lk1) := part_task fuel maxr lk j p in
       match t with
       | TOk ys =>
           let '(r, logs, lk2) := tasks_local fuel maxr lk1 j (idx + 1) rest in
@@ -172,7 +246,7 @@ Fixpoint tasks_pooled (fuel : nat) (maxr : Z) (lk : bool) (j : job) (idx : Z) (p
   match ps with
   | [] => (KOk [], [], lk)
   | p :: rest =>
-      let '(t, log, lk1) := run_task fuel maxr lk (p_nest p) (stage_in j p) (p_plan p) 0 in
+      let '(t, log, lk1) := part_task fuel maxr lk j p in
       let '(r, logs, lk2) := tasks_pooled fuel maxr lk1 j (idx + 1) rest in
       (match t with
        | TOk ys => match r with KOk outs => KOk (ys :: outs) | _ => r end
@@ -188,10 +262,16 @@ Record outcome := mkOut { o_res : jres; o_logs : list (list arec) }.
 (* the rest of the pipeline and the action, applied to what the tasks returned *)
 Definition finish (j : job) (r : kres) : jres :=
   match r with
-  | KOk outs => JOk (act_result (j_action j) (map (map (fn (j_post j))) outs))
+  | KOk outs => JOk (act_result (j_action j) (map (apply_ops (j_post j)) outs))
   | KErr e i a => JErr e i a
   | KFuel => JFuel
   end.
+
+(* the lock flag that the tasks of a whole-partition job see.  toLocalIterator() hands the caller a
+   generator over the task results ([tli_deferred], regenerated): runJob has returned and released the
+   lock before the first task starts *)
+Definition held_of (a : Z) : bool :=
+  if (act_class a =? 1) && tli_deferred then lock_after_ok else lock_on_entry.
 
 (* one driver-level job on a context whose lock flag is [lk]: create the datasets (RDD.__init__),
    then the action (Context.runJob).  mode 0 = DummyPool, otherwise a pool. *)
@@ -199,9 +279,11 @@ Definition run_job (mode : Z) (maxr : Z) (lk : bool) (j : job) : outcome * bool 
   if rdd_init_refused lk then (mkOut JRefused (no_logs (j_parts j)), lk)
   else if job_refused lk then (mkOut JRefused (no_logs (j_parts j)), lk)
   else
-    let '(r, logs, _) :=
-      tasks_of mode (Z.to_nat maxr) maxr lock_on_entry j 0 (j_parts j) in
-    (mkOut (finish j r) logs, match r with KOk _ => lock_after_ok | _ => lock_after_error end).
+    let '(r, logs, lk2) :=
+      tasks_of mode (Z.to_nat maxr) maxr (held_of (j_action j)) j 0 (j_parts j) in
+    (mkOut (finish j r) logs,
+     if (act_class (j_action j) =? 1) && tli_deferred then lk2     (* nothing holds or releases the lock any more *)
+     else match r with KOk _ => lock_after_ok | _ => lock_after_error end).
 
 (* ---------- the lazily evaluated actions take(n), first(), isEmpty()
 
@@ -213,8 +295,11 @@ Definition run_job (mode : Z) (maxr : Z) (lk : bool) (j : job) : outcome * bool 
 Definition E_STOP : Z := 5.          (* StopIteration: first() of an empty dataset *)
 Definition E_SUSPENDED : Z := -2.    (* log entry of a generator that was neither finished nor failed *)
 
-Definition is_lazy (a : Z) : bool := 9 <=? a.
+Definition is_lazy (a : Z) : bool := act_class a =? 2.
 Definition lazy_need (a : Z) : nat := if a <=? 14 then Z.to_nat (a - 9) else 1%nat.
+(* the injected stage runs while the partition is computed (inside _run_task's try) when it is eager itself
+   or something above it pulls the whole partition at once *)
+Definition lazy_eager (j : job) : bool := j_eager j || existsb op_materialises (j_post j).
 
 Inductive lres := LOk (got : list Z) | LErr (exc : Z) (idx : Z) (attempts : Z) | LFuel.
 
@@ -229,8 +314,8 @@ Fixpoint lazy_tasks (fuel : nat) (maxr : Z) (lk : bool) (j : job) (idx : Z) (nee
       | O => (LOk [], no_logs ps, lk)
       | S _ =>
           let xs := stage_in j p in
-          if j_eager j then
-            let '(t, log, lk1) := run_task fuel maxr lk (p_nest p) xs (p_plan p) 0 in
+          if lazy_eager j then
+            let '(t, log, lk1) := part_task fuel maxr lk j p in
             match t with
             | TOk ys =>
                 if (need <=? length ys)%nat then (LOk (firstn need ys), log :: no_logs rest, lk1)
@@ -259,7 +344,7 @@ Fixpoint lazy_tasks (fuel : nat) (maxr : Z) (lk : bool) (j : job) (idx : Z) (nee
 Definition lazy_finish (j : job) (r : lres) : jres :=
   match r with
   | LOk got =>
-      let out := map (fn (j_post j)) got in
+      let out := apply_ops (j_post j) got in
       if j_action j <=? 14 then JOk (vints out)
       else if j_action j =? 15 then match out with x :: _ => JOk (VInt x) | [] => JErr E_STOP 0 0 end
       else JOk (VBool (match out with [] => true | _ => false end))
@@ -279,13 +364,58 @@ Definition run_lazy_job (maxr : Z) (lk : bool) (j : job) : outcome * bool :=
 Definition run_any (mode : Z) (maxr : Z) (lk : bool) (j : job) : outcome * bool :=
   if is_lazy (j_action j) then run_lazy_job maxr lk j else run_job mode maxr lk j.
 
-Fixpoint run_jobs (mode : Z) (maxr : Z) (lk : bool) (js : list job) : list outcome * bool :=
-  match js with
+(* ---------- what a job leaves behind in its dataset: the calls of the injected function that were used up
+   and, for persisted datasets above the injected stage, the partitions that were materialised by a
+   successful attempt and handed to the driver (all partitions before the first failing one) *)
+Definition last_rec (log : list arec) : option arec := match rev log with r :: _ => Some r | [] => None end.
+Definition task_success (log : list arec) : option (list Z) :=
+  match last_rec log with
+  | Some r => match a_out r with None => Some (a_seen r) | Some _ => None end
+  | None => None
+  end.
+Definition log_failed (log : list arec) : bool :=
+  match last_rec log with
+  | Some r => match a_out r with Some e => negb (e =? E_SUSPENDED) | None => false end
+  | None => false
+  end.
+
+Fixpoint after_parts (j : job) (failed_before : bool) (ps : list part) (logs : list (list arec)) : list part :=
+  match ps, logs with
+  | p :: ps', log :: logs' =>
+      mkPart (p_data p) (skipn (length log) (p_plan p)) (p_nest p)
+             (match task_success log with
+              | Some ys => if persist_above j && negb failed_before then Some ys else p_cache p
+              | None => p_cache p
+              end)
+             (p_calls p + length log)
+        :: after_parts j (failed_before || log_failed log) ps' logs'
+  | _, _ => []
+  end.
+
+Definition after_job (j : job) (o : outcome) : job :=
+  mkJob (j_action j) (j_eager j) (j_pre j) (j_post j) (after_parts j false (j_parts j) (o_logs o)).
+
+(* a request: a job description and whether it runs on the dataset object of the previous job (then only its
+   action and its ops, appended above the previous ones, count) *)
+Record jobreq := mkReq { r_job : job; r_reuse : bool }.
+
+Definition resolve (prev : option (Z * job)) (idx : Z) (rq : jobreq) : Z * job :=
+  match r_reuse rq, prev with
+  | true, Some (origin, pj) =>
+      (origin, mkJob (j_action (r_job rq)) (j_eager pj) (j_pre pj) (j_post pj ++ j_post (r_job rq)) (j_parts pj))
+  | _, _ => (idx, r_job rq)
+  end.
+
+(* a sequence of jobs on one context: (index of the job that created the dataset, the job as run, outcome) *)
+Fixpoint run_jobs (mode : Z) (maxr : Z) (lk : bool) (prev : option (Z * job)) (idx : Z) (rqs : list jobreq)
+  : list (Z * job * outcome) * bool :=
+  match rqs with
   | [] => ([], lk)
-  | j :: rest =>
+  | rq :: rest =>
+      let '(origin, j) := resolve prev idx rq in
       let '(o, lk1) := run_any mode maxr lk j in
-      let '(os, lk2) := run_jobs mode maxr lk1 rest in
-      (o :: os, lk2)
+      let '(os, lk2) := run_jobs mode maxr lk1 (Some (origin, after_job j o)) (idx + 1) rest in
+      ((origin, j, o) :: os, lk2)
   end.
 
 (* ---------- vocabulary of the statements in Properties/C04.v *)
@@ -293,20 +423,22 @@ Fixpoint run_jobs (mode : Z) (maxr : Z) (lk : bool) (js : list job) : list outco
 (* some nested operation lets its ContextIsLockedException escape *)
 Definition uncaught (ns : list nop) : bool := existsb (fun n => negb (n_caught n)) ns.
 
-(* the exception class with which attempt i+1 (i from 0) of a task ends while the job lock is held *)
-Definition att_exc (ns : list nop) (pl : plan) (i : nat) : option Z :=
-  if uncaught ns then Some E_LOCKED else option_map f_exc (nth i pl None).
+(* the exception class with which attempt i+1 (i from 0) of a task ends; [held] = the job lock is held
+   while the task runs *)
+Definition att_exc (held : bool) (ns : list nop) (pl : plan) (i : nat) : option Z :=
+  if held && uncaught ns then Some E_LOCKED else option_map f_exc (nth i pl None).
 
-Definition is_some {A} (o : option A) : bool := match o with Some _ => true | None => false end.
+(* the first max_retries attempts of the partition all fail (a partition served from the cache never does) *)
+Definition exhausts (held : bool) (maxr : Z) (j : job) (p : part) : bool :=
+  match cached j p with
+  | Some _ => false
+  | None => forallb (fun i => is_some (att_exc held (p_nest p) (p_plan p) i)) (seq 0 (Z.to_nat maxr))
+  end.
 
-(* the first max_retries attempts of the partition all fail *)
-Definition exhausts (maxr : Z) (p : part) : bool :=
-  forallb (fun i => is_some (att_exc (p_nest p) (p_plan p) i)) (seq 0 (Z.to_nat maxr)).
-
-(* the log entry of attempt i+1 of a task that runs under the job lock: computed from the same
-   input [xs] whatever happened in the earlier attempts *)
-Definition rec_of (ns : list nop) (xs : list Z) (pl : plan) (i : nat) : arec :=
-  fst (attempt true ns xs (nth i pl None) (Z.of_nat i + 1)).
+(* the log entry of attempt i+1 of a task: computed from the same input [xs] whatever happened in the
+   earlier attempts *)
+Definition rec_of (held : bool) (ns : list nop) (xs : list Z) (pl : plan) (i : nat) : arec :=
+  fst (attempt held ns xs (nth i pl None) (Z.of_nat i + 1)).
 
 (* what the attempt log records for the nested operations of one attempt under the lock: a refusal
    for every operation up to and including the first one whose exception is not caught *)
@@ -315,41 +447,56 @@ Fixpoint refusals (ns : list nop) : list Z :=
   | [] => []
   | n :: rest => 0 :: (if n_caught n then refusals rest else [])
   end.
+(* ... and while the lock is free: every operation is accepted *)
+Definition nest_outcomes (held : bool) (ns : list nop) : list Z :=
+  if held then refusals ns else map (fun _ => 1) ns.
 
 (* the log of attempts 1..n *)
-Definition task_log (ns : list nop) (xs : list Z) (pl : plan) (n : nat) : list arec :=
-  map (rec_of ns xs pl) (seq 0 n).
+Definition task_log (held : bool) (ns : list nop) (xs : list Z) (pl : plan) (n : nat) : list arec :=
+  map (rec_of held ns xs pl) (seq 0 n).
 
-(* the complete attempt log of one task: attempts 1..n, each computed from scratch; all but the
-   last failed; the last one succeeded or was the max_retries-th *)
-Definition task_log_ok (maxr : Z) (j : job) (p : part) (log : list arec) : Prop :=
-  exists n, log = task_log (p_nest p) (stage_in j p) (p_plan p) n /\ (1 <= n)%nat /\ Z.of_nat n <= maxr /\
-            (forall i, (i < n - 1)%nat -> att_exc (p_nest p) (p_plan p) i <> None) /\
-            (att_exc (p_nest p) (p_plan p) (n - 1) = None \/ Z.of_nat n = maxr).
+(* the complete attempt log of one task: nothing for a partition served from the cache; otherwise attempts
+   1..n, each computed from scratch; all but the last failed; the last one succeeded or was the
+   max_retries-th *)
+Definition task_log_ok (held : bool) (maxr : Z) (j : job) (p : part) (log : list arec) : Prop :=
+  match cached j p with
+  | Some _ => log = []
+  | None =>
+      exists n, log = task_log held (p_nest p) (stage_in j p) (p_plan p) n /\ (1 <= n)%nat /\ Z.of_nat n <= maxr /\
+                (forall i, (i < n - 1)%nat -> att_exc held (p_nest p) (p_plan p) i <> None) /\
+                (att_exc held (p_nest p) (p_plan p) (n - 1) = None \/ Z.of_nat n = maxr)
+  end.
 
 (* every partition has a successful attempt among its first max_retries attempts *)
-Definition all_ok (maxr : Z) (ps : list part) : bool := forallb (fun p => negb (exhausts maxr p)) ps.
+Definition all_ok (held : bool) (maxr : Z) (j : job) (ps : list part) : bool :=
+  forallb (fun p => negb (exhausts held maxr j p)) ps.
 
 (* logs of a failing job whose first exhausting partition is p (parts = pre ++ p :: post): locally the
    partitions after p are never started; on a pool every partition runs to its own conclusion *)
-Definition logs_ok (mode : Z) (maxr : Z) (j : job) (pre : list part) (p : part) (post : list part)
+Definition logs_ok (mode : Z) (held : bool) (maxr : Z) (j : job) (pre : list part) (p : part) (post : list part)
            (logs : list (list arec)) : Prop :=
   if mode =? 0
-  then exists lpre, logs = lpre ++ task_log (p_nest p) (stage_in j p) (p_plan p) (Z.to_nat maxr) :: no_logs post
-                    /\ Forall2 (task_log_ok maxr j) pre lpre
-  else Forall2 (task_log_ok maxr j) (pre ++ p :: post) logs
-       /\ nth (length pre) logs [] = task_log (p_nest p) (stage_in j p) (p_plan p) (Z.to_nat maxr).
+  then exists lpre, logs = lpre ++ task_log held (p_nest p) (stage_in j p) (p_plan p) (Z.to_nat maxr) :: no_logs post
+                    /\ Forall2 (task_log_ok held maxr j) pre lpre
+  else Forall2 (task_log_ok held maxr j) (pre ++ p :: post) logs
+       /\ nth (length pre) logs [] = task_log held (p_nest p) (stage_in j p) (p_plan p) (Z.to_nat maxr).
 
 (* every nested operation recorded in the logs was refused *)
 Definition nested_all_refused (logs : list (list arec)) : Prop :=
   Forall (Forall (fun r => Forall (fun o => o = 0) (a_nest r))) logs.
 
-(* the property, clause by clause, for one job and its outcome: the fault-free result when every partition
-   succeeds within the budget; otherwise the exception of the first exhausting partition, raised by its
-   attempt number max_retries, with the logs described by [logs_ok]; every nested operation refused *)
+(* what the cache manager holds for a partition is the fault-free output of the injected stage *)
+Definition cache_sound (j : job) : Prop :=
+  Forall (fun p => forall c, p_cache p = Some c -> c = stage_in j p) (j_parts j).
+
+(* the property, clause by clause, for one whole-partition job and its outcome: the fault-free result when
+   every partition succeeds within the budget; otherwise the exception of the first exhausting partition,
+   raised by its attempt number max_retries, with the logs described by [logs_ok]; every nested operation
+   refused -- when the tasks run while the lock is held *)
 Definition job_spec (mode maxr : Z) (j : job) (o : outcome) : Prop :=
-  (all_ok maxr (j_parts j) = true -> o_res o = JOk (plain_result j)) /\
-  (forall pre p post e, j_parts j = pre ++ p :: post -> all_ok maxr pre = true -> exhausts maxr p = true ->
-     att_exc (p_nest p) (p_plan p) (Z.to_nat maxr - 1) = Some e ->
-     o_res o = JErr e (Z.of_nat (length pre)) maxr /\ logs_ok mode maxr j pre p post (o_logs o)) /\
-  nested_all_refused (o_logs o).
+  let held := held_of (j_action j) in
+  (all_ok held maxr j (j_parts j) = true -> o_res o = JOk (plain_result j)) /\
+  (forall pre p post e, j_parts j = pre ++ p :: post -> all_ok held maxr j pre = true -> exhausts held maxr j p = true ->
+     att_exc held (p_nest p) (p_plan p) (Z.to_nat maxr - 1) = Some e ->
+     o_res o = JErr e (Z.of_nat (length pre)) maxr /\ logs_ok mode held maxr j pre p post (o_logs o)) /\
+  (held = true -> nested_all_refused (o_logs o)).
